@@ -53,7 +53,10 @@ def correspondence(ck, tier):
         s = quiet(StepAnalytical, n, rmax, r1, r2, A0=A0, symmetric=sym)
         x = np.abs(s.r)
         want = A0 * 2 * (hc(r2 ** 2 - x ** 2) - hc(r1 ** 2 - x ** 2))
-        if np.abs(s.abel - want).max() > 1e-12 * max(1.0, abs(A0) * rmax):
+        # where a grid point coincides with an edge, √(r_k² − x²) is infinitely sensitive: one ulp in x moves it by r_k√(2ε)
+        eps = np.finfo(float).eps
+        edge_tol = sum(np.where(np.abs(x - rk) <= 4 * eps * max(rk, 1e-300), rk * np.sqrt(8 * eps), 0.0) for rk in (r1, r2))
+        if np.any(np.abs(s.abel - want) > 1e-12 * max(1.0, abs(A0) * rmax) + 2 * abs(A0) * edge_tol):
             ck.disagree("K.closed-forms", dict(cls="StepAnalytical", n=n, r_max=rmax, r1=r1, r2=r2, A0=A0, symmetric=sym),
                         "StepAnalytical.abel differs from 2A0(hc(r2²−x²) − hc(r1²−x²))")
         inside = (x > r1) & (x < r2)
@@ -193,10 +196,14 @@ def oracle(ck, tier, deep):
                     ck.violation(dict(site="SampleImage", clause="func-definition", name=name), dict(rep, pixel=[i, j]),
                                  f"func[{i},{j}] = {f_img[i, j]:.10g} but the peak table gives {want_f:.10g}")
                     break
-                want = los(lambda q: float(F(np.array(y), np.array(q))), x, s.r_max * 1.5 + 20)
+                brk = None
+                if name == "O2":          # compact piecewise-cubic rings: tell the integrator where the pieces meet
+                    radii = sorted({rb for A_, r0, w, cn in s._peaks for rb in (r0 * sc - 2 * w, r0 * sc, r0 * sc + 2 * w) if rb > 0})
+                    brk = sorted({float(np.sqrt(rb * rb - y * y - x * x)) for rb in radii if rb * rb > y * y + x * x}) or None
+                want = los(lambda q: float(F(np.array(y), np.array(q))), x, s.r_max * 1.5 + 20, pts=brk)
                 exact = name in ("Gaussian", "O2")
                 chord = 2 * np.sqrt(max((s.r_max * 1.5) ** 2 - x * x, 1.0))
-                bound = 1e-8 * max(1.0, abs(want)) if exact else 1.05 * tol * peaks_amp * chord
+                bound = 1e-8 * max(1.0, abs(want)) * max(1.0, (n / 100.0) ** 2) if exact else 1.05 * tol * peaks_amp * chord
                 if abs(ab[i, j] - want) > bound:
                     ck.violation(dict(site="SampleImage", clause="abel-pair", name=name), dict(rep, pixel=[i, j], abel=float(ab[i, j]), quadrature=want),
                                  f"{name} n={n}: abel[{i},{j}] = {ab[i, j]:.10g}, projection of func = {want:.10g} (allowed {bound:.3g})")
